@@ -599,6 +599,16 @@ func (b *builder) build(s *Spec, label string) gen.V {
 		f = map[string]gen.V{"Ref": absint.Cat(absint.Lit("#/$defs/"), absint.HoleStr(b.atom(s, "RawStr", "name of a definition that does not exist", true)))}
 	case "bad-pointer":
 		f = map[string]gen.V{"Ref": absint.Lit("#/properties/x")}
+	case "allof-self-definition", "anyof-self-definition":
+		// a definition whose own allOf / anyOf lists the definition itself (needs ConcreteDef)
+		self := g.Node(map[string]gen.V{"Ref": absint.Lit("#/$defs/" + s.ConcreteDef)})
+		kn := absint.HoleStr(b.atom(s, "RawStr", "name of property k", true))
+		other := g.Node(map[string]gen.V{"Type": g.Types("object"), "Properties": g.Map([]gen.V{kn}, []gen.V{g.Node(map[string]gen.V{"Type": g.Types("string")})})})
+		if s.Hostile == "allof-self-definition" {
+			f["AllOf"] = g.Nodes(self, other)
+		} else {
+			f["AnyOf"] = g.Nodes(self, other)
+		}
 	case "empty-definition-name":
 		// the JSON pointer names the member "" of $defs, which does not exist
 		f = map[string]gen.V{"Ref": absint.Lit("#/$defs/")}
